@@ -392,8 +392,14 @@ func (db *RockDB) KVExists(keys ...[]byte) (int64, error) {
 		}
 	}
 	cnt := int64(0)
+	invalid := make([]error, len(keys))
+	copy(invalid, errs)
 	db.MultiGetBytes(keyList, valueList, errs)
 	for i, v := range valueList {
+		if invalid[i] != nil {
+			// the engine was asked for a nil key: whatever it answered is not this key's data
+			continue
+		}
 		if errs[i] == nil && v != nil {
 			expired, _ := db.expiration.isExpired(tn, KVType, keys[i], v, true)
 			if expired {
@@ -503,9 +509,18 @@ func (db *RockDB) MGet(keys ...[]byte) ([][]byte, []error) {
 		}
 	}
 	tn := time.Now().UnixNano()
+	invalid := make([]error, len(keys))
+	copy(invalid, errs)
 	db.MultiGetBytes(keyList, valueList, errs)
 	//log.Printf("mget: %v", keyList)
 	for i, v := range valueList {
+		if invalid[i] != nil {
+			// the engine was asked for a nil key (and reset the error): whatever it answered
+			// is not this key's data
+			valueList[i] = nil
+			errs[i] = invalid[i]
+			continue
+		}
 		if errs[i] == nil {
 			expired, realV, err := db.getAndCheckExpRealValue(tn, keys[i], v, true)
 			if err != nil {
